@@ -102,56 +102,89 @@ theorem jwsParseJSON_crit (o : Oracle) (data : Bytes) (m : Msg)
 
 /-! ### JWE -/
 
-theorem jweDecodeOpt_crit (o : Oracle) (w : Option Wire) (h : Header)
-    (hd : (jweDecodeOpt w).run o = .ok h) : critOK jwe.knownParams h.crit = true := by
-  unfold jweDecodeOpt at hd
-  split at hd <;> exact decodeWith_crit o _ _ jwe_guarded _ _ hd
+theorem decodeWith_raw (o : Oracle) (steps : List DecStep) (obj : List (String × Wire)) (h : Header)
+    (hd : (decodeWith steps obj).run o = .ok h) : h.raw = obj := by
+  unfold decodeWith at hd
+  obtain ⟨st, _, hd⟩ := PO.run_bind_eq_ok _ _ _ _ hd
+  simp at hd
+  rw [← hd]
 
-theorem parseRecipients_crit (o : Oracle) (ws : List Wire) (rs : List Recipient)
-    (h : (parseRecipients ws).run o = .ok rs) : ∀ r ∈ rs, ∃ hd, r.header = some hd ∧ hd.crit = [] := by
+/-- what ParseJSON guarantees about one per-recipient header relative to the protected (`pm`) and
+    shared unprotected (`um`) member lists -/
+def RcptOK (pm um : List (String × Wire)) (r : Recipient) : Prop :=
+  ∃ hd, r.header = some hd ∧ hd.crit = [] ∧ sharesName hd.raw pm = false ∧ sharesName hd.raw um = false
+
+theorem parseRecipients_ok (o : Oracle) (pm um : List (String × Wire)) (ws : List Wire) (rs : List Recipient)
+    (h : (parseRecipients pm um ws).run o = .ok rs) : ∀ r ∈ rs, RcptOK pm um r := by
   induction ws generalizing rs with
   | nil => simp [parseRecipients] at h; subst h; simp
   | cons w rest ih =>
     unfold parseRecipients at h
-    obtain ⟨hd, _, h⟩ := PO.run_bind_eq_ok _ _ _ _ h
+    obtain ⟨hd, hhd, h⟩ := PO.run_bind_eq_ok _ _ _ _ h
+    have hraw := decodeWith_raw o _ _ hd hhd
     split at h
     · simp at h
     · rename_i hlen
-      obtain ⟨_, _, h⟩ := PO.run_bind_eq_ok _ _ _ _ h
-      obtain ⟨rs', hrs', h⟩ := PO.run_bind_eq_ok _ _ _ _ h
-      simp at h
-      rw [← h]
-      intro r hr
-      simp at hr
-      rcases hr with e | hr
-      · subst e
-        refine ⟨hd, rfl, ?_⟩
-        simpa using hlen
-      · exact ih _ hrs' r hr
+      split at h
+      · simp at h
+      · rename_i hdup
+        obtain ⟨_, _, h⟩ := PO.run_bind_eq_ok _ _ _ _ h
+        obtain ⟨rs', hrs', h⟩ := PO.run_bind_eq_ok _ _ _ _ h
+        simp at h
+        rw [← h]
+        intro r hr
+        simp at hr
+        rcases hr with e | hr
+        · subst e
+          simp only [Bool.or_eq_true, not_or, Bool.not_eq_true] at hdup
+          exact ⟨hd, rfl, by simpa using hlen, by rw [hraw]; exact hdup.1, by rw [hraw]; exact hdup.2⟩
+        · exact ih _ hrs' r hr
+
+/-- jwe.ParseJSON returns a message only if: the protected header's crit entries are all
+    implemented; the shared unprotected and every per-recipient header carry no crit; and no
+    Header Parameter name (registered or not) occurs in two of the three positions of a recipient's
+    JOSE header (RFC 7516 §7.2.1). -/
+theorem jweParseJSON_ok (o : Oracle) (data : Bytes) (m : JweMsg)
+    (h : (jweParseJSON data).run o = .ok m) :
+    ∃ p u, m.prot = some p ∧ m.unprotected = some u ∧ critOK jwe.knownParams p.crit = true ∧ u.crit = [] ∧
+      sharesName u.raw p.raw = false ∧ ∀ r ∈ m.recipients, RcptOK p.raw u.raw r := by
+  unfold jweParseJSON at h
+  obtain ⟨raw, _, h⟩ := PO.run_bind_eq_ok _ _ _ _ h
+  split at h
+  · obtain ⟨rawHeader, _, h⟩ := PO.run_bind_eq_ok _ _ _ _ h
+    obtain ⟨p, hp, h⟩ := PO.run_bind_eq_ok _ _ _ _ h
+    obtain ⟨u, hu, h⟩ := PO.run_bind_eq_ok _ _ _ _ h
+    have hpr := decodeWith_raw o _ _ p hp
+    have hur := decodeWith_raw o _ _ u hu
+    split at h
+    · simp at h
+    · rename_i hlen
+      split at h
+      · simp at h
+      · rename_i hdup
+        obtain ⟨_, _, h⟩ := PO.run_bind_eq_ok _ _ _ _ h
+        obtain ⟨_, _, h⟩ := PO.run_bind_eq_ok _ _ _ _ h
+        obtain ⟨_, _, h⟩ := PO.run_bind_eq_ok _ _ _ _ h
+        obtain ⟨_, _, h⟩ := PO.run_bind_eq_ok _ _ _ _ h
+        obtain ⟨rws, _, h⟩ := PO.run_bind_eq_ok _ _ _ _ h
+        obtain ⟨rs, hrs, h⟩ := PO.run_bind_eq_ok _ _ _ _ h
+        simp at h
+        rw [← h]
+        refine ⟨p, u, rfl, rfl, decodeWith_crit o _ _ jwe_guarded _ _ hp, by simpa using hlen, ?_, ?_⟩
+        · rw [hpr, hur]; simpa using hdup
+        · rw [hpr, hur]; exact parseRecipients_ok o _ _ _ rs hrs
+  · simp at h
 
 theorem jweParseJSON_crit (o : Oracle) (data : Bytes) (m : JweMsg)
     (h : (jweParseJSON data).run o = .ok m) :
     (∃ p, m.prot = some p ∧ critOK jwe.knownParams p.crit = true) ∧
     (∃ u, m.unprotected = some u ∧ u.crit = []) ∧
     (∀ r ∈ m.recipients, ∃ hd, r.header = some hd ∧ hd.crit = []) := by
-  unfold jweParseJSON at h
-  obtain ⟨raw, _, h⟩ := PO.run_bind_eq_ok _ _ _ _ h
-  split at h
-  · obtain ⟨_, _, h⟩ := PO.run_bind_eq_ok _ _ _ _ h
-    obtain ⟨p, hp, h⟩ := PO.run_bind_eq_ok _ _ _ _ h
-    obtain ⟨u, _, h⟩ := PO.run_bind_eq_ok _ _ _ _ h
-    split at h
-    · simp at h
-    · rename_i hlen
-      obtain ⟨_, _, h⟩ := PO.run_bind_eq_ok _ _ _ _ h
-      obtain ⟨_, _, h⟩ := PO.run_bind_eq_ok _ _ _ _ h
-      obtain ⟨_, _, h⟩ := PO.run_bind_eq_ok _ _ _ _ h
-      obtain ⟨rs, hrs, h⟩ := PO.run_bind_eq_ok _ _ _ _ h
-      simp at h
-      rw [← h]
-      refine ⟨⟨p, rfl, unmarshalWith_crit o _ _ jwe_guarded _ _ hp⟩, ⟨u, rfl, by simpa using hlen⟩, ?_⟩
-      exact parseRecipients_crit o _ rs hrs
-  · simp at h
+  obtain ⟨p, u, hp, hu, hc, huc, _, hr⟩ := jweParseJSON_ok o data m h
+  refine ⟨⟨p, hp, hc⟩, ⟨u, hu, huc⟩, ?_⟩
+  intro r hr'
+  obtain ⟨hd, h1, h2, _⟩ := hr r hr'
+  exact ⟨hd, h1, h2⟩
 
 theorem jweParseCompact_crit (o : Oracle) (segs : List String) (m : JweMsg)
     (h : (jweParseCompact segs).run o = .ok m) :
